@@ -529,6 +529,22 @@ func GenCase(prop string, seed uint64, thorough bool) *Case {
 		return genComponent(prop, seed, g, thorough)
 	case "C05", "C10":
 		return genConc(prop, seed, g, thorough)
+	case "C09":
+		if r.p(0.4) {
+			// concurrent writers under injected faults: everyone gets an answer
+			cc := genConc(prop, seed, g, thorough)
+			g.faultPlan(cc, prop)
+			for _, f := range cc.Faults {
+				// bias toward the journal: the write path holds the write lock
+				if r.p(0.5) {
+					f.FT = int(storage.TypeJournal)
+					if f.Op != simdisk.OpWrite && f.Op != simdisk.OpSync && f.Op != simdisk.OpCreate {
+						f.Op = []string{simdisk.OpWrite, simdisk.OpSync, simdisk.OpCreate}[r.intn(3)]
+					}
+				}
+			}
+			return cc
+		}
 	case "C18":
 		return genLife(seed, g, thorough)
 	case "C19":
@@ -612,6 +628,35 @@ func GenCase(prop string, seed uint64, thorough bool) *Case {
 		}
 	}
 	c.Clients = [][]Op{ops}
+	if prop == "C03" && r.p(0.35) {
+		// a concurrent observer taking snapshots; the DB must stay open
+		var keep []Op
+		for _, o := range ops {
+			if o.K != "reopen" {
+				keep = append(keep, o)
+			}
+		}
+		c.Clients[0] = keep
+		var obs []Op
+		for i := r.rng(3, 25); i > 0; i-- {
+			obs = append(obs, Op{K: "observe", Ms: r.pick(0, 0, 1, 50, 2000)})
+		}
+		c.Clients = append(c.Clients, obs)
+		if c.Sched.Strategy == 0 && c.Sched.YieldP < 0.002 {
+			c.Sched.YieldP = []float64{0.002, 0.01, 0.05}[r.intn(3)]
+		}
+	}
+	if prop == "C07" && r.p(0.3) {
+		// failed flushes/compactions: faults on table files only, so that
+		// every manifest commit that is attempted succeeds and the monitor's
+		// view of the live set stays exact
+		for i := r.rng(1, 3); i > 0; i-- {
+			f := &simdisk.Fault{Kind: "err", Op: []string{simdisk.OpWrite, simdisk.OpSync, simdisk.OpCreate, simdisk.OpClose}[r.intn(4)], FT: int(storage.TypeTable), Nth: r.rng(1, 40), Count: r.rng(1, 3), Epoch: -1}
+			c.Faults = append(c.Faults, f)
+		}
+		c.TableFaultsOnly = true
+		c.Clients[0] = append(c.Clients[0], Op{K: "heal"}, Op{K: "settle"})
+	}
 	switch c.Scenario {
 	case "crash":
 		g.crashPlan(c)
